@@ -112,14 +112,16 @@ pub fn run_job(job: &Job, judge: &Judge) -> JobOut {
     drop(one);
     if job.ladder_depth > 0 && len > 0 {
         let depth = job.ladder_depth.min(len);
-        let lspec = job.spec.clone().with_s0(2.);
+        // two ladders: ordinary scores below the start score, and ordinary scores reached from an
+        // astronomically bad start (LJ states with nearly coinciding particles score -1e24)
+        for (s0, offs) in [(2., [Some(0.), Some(1.), Some(2.), None]), (-1e24, [Some(0.25), Some(0.5), Some(1.), None])].iter() {
+        let lspec = job.spec.clone().with_s0(*s0);
         let qs = [0.25, 0.75];
         let ks = [0u64, thr_k_of(THRESHOLDS[4])];
-        let offs = [Some(0.), Some(1.), Some(2.), None];
         let n = job.spec.n().min(2);
         let tail: Vec<StepScript> = (depth + 1..=len).map(|t| alpha.default_step(t)).collect();
         let bounds = step_bounds(&job.cfg, &lspec);
-        for_each_product(n, &qs, &ks, &offs, depth, true, |head| {
+        for_each_product(n, &qs, &ks, &offs[..], depth, true, |head| {
             let mut s = head.to_vec();
             s.extend(tail.iter().map(|x| StepScript { answer: x.answer.map(|a| a + 10.), ..*x }));
             let obs = run_script(&job.cfg, &lspec, &s);
@@ -142,6 +144,7 @@ pub fn run_job(job: &Job, judge: &Judge) -> JobOut {
                 }
             }
         });
+        }
     }
     out
 }
@@ -404,6 +407,14 @@ pub fn c07(tier: Tier) -> ! {
             }
         }
     }
+    // very low temperatures with drops of the same order (a floor or a cut-off on kT shows here)
+    for &kt in [1e-12, 2f64.powi(-36), 1e-9, 1e-7].iter() {
+        for &f in [0.25, 1., 3.].iter() {
+            for &(steps, inner, t) in [(4u64, 4u64, 1usize), (4, 4, 3)].iter() {
+                meas.push((kt * f, kt, steps, inner, t, 2));
+            }
+        }
+    }
     calibrate();
     let res = par_map(&meas, |_, &(d, kt, steps, inner, t, n)| {
         let cfg = Cfg { steps, inner, kt_start: kt, kt_finish: None, kt_ratio: Some(0.), max_step: 0.01, convergence: None };
@@ -441,7 +452,7 @@ pub fn c07(tier: Tier) -> ! {
     let total = run.get("traces_validated_against_impl") + replays;
     run.set("traces_validated_against_impl", total);
     run.set("exhaustive", true);
-    run.set("explanation", "Deterministic clauses: every script with at most max_deviations departures from 4 baseline patterns (plus a full product to depth 3/4) on the real optimiser; for every consistent accept/reject history the decision at each step is compared with: invalid => rejected, better or equal => accepted, worse at zero temperature => rejected, worse in the first loop => accepted iff u < exp(-d/kT_start). Quantitative clause: for each (d, kT, step, layout) of a 7x6x4x2 grid the acceptance threshold is measured exactly by bisecting the scripted uniform draw (53 replays) and compared with exp(-d/kT).");
+    run.set("explanation", "Deterministic clauses: every script with at most max_deviations departures from 4 baseline patterns (plus a full product to depth 3/4) on the real optimiser; for every consistent accept/reject history the decision at each step is compared with: invalid => rejected, better or equal => accepted, worse at zero temperature => rejected, worse in the first loop => accepted iff u < exp(-d/kT_start). Quantitative clause: for each (d, kT, step, layout) of a 7x6x4x2 grid, and for kT in {1e-12, 2^-36, 1e-9, 1e-7} with drops of 0.25, 1 and 3 kT, the acceptance threshold is measured exactly by bisecting the scripted uniform draw (53 replays) and compared with exp(-d/kT).");
     run.assume("uniformity of rand's gen::<f64>() (then 'accepted iff u < p' is 'accepted with probability p')");
     run.require(t.accepts > 0 && t.rejects > 0 && interior > 50, "accepts, rejects and interior thresholds must occur");
     run.finish()
@@ -453,7 +464,8 @@ pub fn c07(tier: Tier) -> ! {
 pub fn c05_jobs(tier: Tier) -> Vec<Job> {
     let mut jobs = vec![];
     let fins = [None, Some(0.), Some(1e-3), Some(1.)];
-    let ratios = [None, Some(0.), Some(0.1), Some(1.), Some(2.)];
+    // ratios above one (over-cooling) and below zero (heating, up to an absurd factor) are legal
+    let ratios = [None, Some(0.), Some(0.1), Some(1.), Some(2.), Some(-3.), Some(-1e200)];
     let mss = [0.01, 0.5, 1.];
     let convs = [None, Some(0.), Some(1e-3)];
     let mut k = 0usize;
@@ -546,13 +558,14 @@ pub fn c19(tier: Tier) -> ! {
     let grid: Vec<(u64, u64)> = if tier == Tier::Quick { vec![(4, 1), (4, 2), (6, 2), (6, 3), (6, 1)] } else { vec![(4, 1), (4, 2), (6, 1), (6, 2), (6, 3), (8, 2), (12, 2), (12, 3), (9, 3), (7, 3), (5, 9)] };
     for n in 1..=3usize {
         for &(steps, inner) in grid.iter() {
-            for &ms in [1e-6, 1e-4, 0.01, 0.1, 0.5, 1.].iter() {
-                for &(kt, ratio) in [(0., Some(0.)), (1e300, Some(0.))].iter() {
+            for &ms in [1e-6, 1e-4, 0.01, 0.1, 0.5, 1., 1.5].iter() {
+                for &(kt, fin, ratio) in [(0., None, Some(0.)), (1e300, None, Some(0.)), (0.1, Some(10.), None), (0.5, None, Some(-3.)), (1., Some(1e-3), None)].iter() {
                     for pat in patterns().into_iter() {
                         for &q in [0., 0.75].iter() {
                             jobs.push(Job {
-                                cfg: Cfg { steps, inner, kt_start: kt, kt_finish: None, kt_ratio: ratio, max_step: ms, convergence: None },
-                                spec: ProbeSpec::interior(n),
+                                cfg: Cfg { steps, inner, kt_start: kt, kt_finish: fin, kt_ratio: ratio, max_step: ms, convergence: None },
+                                // large steps only bite next to a bound, small ones must not be masked by one
+                                spec: if ms > 1. { ProbeSpec::standard(n) } else { ProbeSpec::interior(n) },
                                 pattern: pat.clone(),
                                 default_q: q,
                                 max_dev: tier.pick(1, 2),
@@ -586,7 +599,7 @@ pub fn c19(tier: Tier) -> ! {
     let t = run_jobs(&mut run, &jobs, &judge);
     run.set("max_deviations", tier.pick(1, 2) as u64);
     run.set("exhaustive", true);
-    run.set("explanation", "Rejection histories from 0 % to 100 % per loop (4 baseline patterns and every departure of at most max_deviations fields from them), 1..12 inner loops, 6 maximum step sizes (1e-6 .. 1), 3 parameter ranges, extreme and moderate displacement draws, interior start values so that clamping cannot mask a move. Every proposal must differ from a state the run can be in by one parameter and by at most max_step_size * range / 2.");
+    run.set("explanation", "Rejection histories from 0 % to 100 % per loop (4 baseline patterns and every departure of at most max_deviations fields from them), 1..12 inner loops, 7 maximum step sizes (1e-6 .. 1.5), constant, cooling and heating schedules, 3 parameter ranges, extreme and moderate displacement draws, interior start values so that clamping cannot mask a move. Every proposal must differ from a state the run can be in by one parameter and by at most max_step_size * range / 2.");
     run.require(t.accepts > 0 && t.rejects > 0, "both accepted and rejected steps must occur");
     run.finish()
 }
@@ -659,7 +672,7 @@ pub fn measure_temperature(cfg: &Cfg, spec: &ProbeSpec, t: usize, guess: f64, re
 pub fn c18_configs(tier: Tier) -> Vec<Cfg> {
     let mut v = vec![];
     let shapes: Vec<(u64, u64)> = if tier == Tier::Quick { vec![(4, 1), (4, 0), (6, 2), (12, 4), (7, 3), (5, 5), (5, 9)] } else { vec![(4, 1), (4, 0), (6, 0), (6, 2), (10, 1), (12, 3), (12, 4), (7, 3), (5, 5), (5, 9), (12, 2), (9, 4), (8, 8), (18, 1), (18, 0)] };
-    for &start in [0., 0.01, 0.1, 1.].iter() {
+    for &start in [0., 1e-10, 0.01, 0.1, 1.].iter() {
         let mut schedules: Vec<(Option<f64>, Option<f64>)> = vec![(None, None)];
         for &r in [0., 0.1, 0.5, 0.9, 1.].iter() {
             schedules.push((None, Some(r)));
@@ -669,6 +682,8 @@ pub fn c18_configs(tier: Tier) -> Vec<Cfg> {
         }
         schedules.push((Some(0.), None));
         schedules.push((Some(0.05), Some(0.5)));
+        // a ratio together with a finishing temperature it undercuts after two loops: the ratio wins
+        schedules.push((Some(if start == 0. { 0.3 } else { start * 0.3 }), Some(0.5)));
         for (fin, ratio) in schedules {
             for &(steps, inner) in shapes.iter() {
                 v.push(Cfg { steps, inner, kt_start: start, kt_finish: fin, kt_ratio: ratio, max_step: 0.01, convergence: None });
